@@ -206,6 +206,7 @@ func compile(fn *ssa.Function) *fnInfo {
 // ---- interpreter state ------------------------------------------------
 
 type Interp struct {
+	jsonRaws     map[uintptr]rawEntry // source text of decoded JSON objects/arrays (per path)
 	sh           *Shared
 	prog         *ssa.Program
 	globals      map[*ssa.Global]*value
